@@ -82,7 +82,8 @@ def load_units():
                     f[k] = [subst(src.defs, c) for c in f.get(k, [])]
                 # frame of the importing container's extra fields (BaseParser default methods
                 # can only reach the lexer through toks()/toks_mut())
-                f["ensures"] = f["ensures"] + list(imp.get("frame", []))
+                # (only for `&mut self` functions: decided when the signature is read)
+                f["_frame"] = list(imp.get("frame", []))
                 f.pop("loop", None)
                 f.pop("subst", None)
                 f.pop("proof", None)
@@ -198,7 +199,10 @@ def assemble_fn(unit, spec, idx, raw, counts):
     if f["ret"]:
         a, b = f["ret"]
         edits.append((a, b, "(%s: %s)" % (rname, raw[a:b].decode())))
-    contract = clause_block("requires", spec.get("requires", []), defs, "        ") + clause_block("ensures", spec.get("ensures", []), defs, "        ")
+    ens = list(spec.get("ensures", []))
+    if spec.get("_frame") and re.search(r"&\s*mut\s+self", raw[f["sig_start"] : f["body_open"]].decode()):
+        ens += spec["_frame"]
+    contract = clause_block("requires", spec.get("requires", []), defs, "        ") + clause_block("ensures", ens, defs, "        ")
     if spec.get("fn_decreases"):
         # termination measure of a (mutually) recursive function
         contract += "        decreases " + subst(defs, spec["fn_decreases"]) + ",\n"
@@ -337,6 +341,12 @@ def assemble_fn(unit, spec, idx, raw, counts):
                 raise Undecided("anchor lost: substitution /%s/ applies %d times in %s (expected %d)" % (sub["from"], n, spec["path"], sub.get("count", 1)))
             counts["subst:" + sub.get("why", sub["from"])] = counts.get("subst:" + sub.get("why", sub["from"]), 0) + n
             continue
+        if "from_any" in sub:
+            # alternative spellings of the same idiom: exactly one of them must occur (the stated number of times)
+            hits = [alt for alt in sub["from_any"] if text.count(alt) > 0]
+            if len(hits) != 1:
+                raise Undecided("anchor lost: substitution alternatives %r: %d of them occur in %s (expected exactly 1)" % (sub["from_any"], len(hits), spec["path"]))
+            sub = dict(sub, **{"from": hits[0]})
         n = text.count(sub["from"])
         if n != sub.get("count", 1):
             raise Undecided("anchor lost: substitution %r applies %d times in %s (expected %d)" % (sub["from"], n, spec["path"], sub.get("count", 1)))
@@ -419,12 +429,13 @@ def build_unit(unit, scratch, outdir):
         cur = head
         line = cur.count("\n") + 1
         for spec, f, text, raw in pre_parts:
-            blk = "\n%s {\n" % spec["container_override"]
+            free = spec["container_override"] == "free"  # a free function: no impl block
+            blk = "\n" if free else "\n%s {\n" % spec["container_override"]
             cur += blk
             line += blk.count("\n")
             n = text.count("\n")
             fn_meta.append({"path": spec["path"], "source": spec.get("source", unit.source), "name": spec["path"].split("::")[-1], "mode": spec.get("mode", "verify"), "imported_from": None, "first_line": line, "last_line": line + n, "repo_lines": [f["line"], f["end_line"]], "sha1": hashlib.sha1(raw[f["start"] : f["end"]]).hexdigest()[:12]})
-            cur += text + "}\n"
+            cur += text + ("\n" if free else "}\n")
             line += n + 1
         cur += marker + tail
         line = cur.count("\n") + 1
